@@ -80,7 +80,7 @@ func runC08Lock(c *Ctx, r *Rng) {
 		}
 		switch l {
 		case "app.op", "loop.start", "loop.tick", "loop.exit", "loop.run.post-closed-check",
-			"close.post-cas", "close.post-done", "close.pre-reporter-close", "counter.deliver", "rep.flush":
+			"close.post-cas", "close.post-done", "close.pre-reporter-close", "close.wait-for-winner", "counter.deliver", "rep.flush":
 			return true
 		}
 		return false
@@ -163,6 +163,7 @@ func runC08Lock(c *Ctx, r *Rng) {
 	closers := map[*Thr]int{}
 	closeErrs := make([]string, nClose)
 	probed := map[*Thr]bool{}
+	probedAt := map[*Thr]string{} // where a probed Close call was resumed from (it then sits in wg.Wait() resp. <-closeDone)
 	for i := 0; i < nClose; i++ {
 		i := i
 		t := s.Spawn(fmt.Sprintf("C%d", i), func() {
@@ -218,8 +219,11 @@ func runC08Lock(c *Ctx, r *Rng) {
 			say(fmt.Sprintf("adv closer %d flush %s", ci, tok))
 		case "close.pre-reporter-close":
 			say(fmt.Sprintf("adv closer %d reporterClose", ci))
+		case "close.wait-for-winner":
+			// the CAS failed: this call waits for the winning call to return (repair D17)
+			say(fmt.Sprintf("adv closer %d wait-winner", ci))
 		case "done":
-			if from == "start" {
+			if from == "start" || from == "close.wait-for-winner" {
 				say(fmt.Sprintf("adv closer %d returnedNil", ci))
 			} else {
 				say(fmt.Sprintf("adv closer %d returned", ci))
@@ -246,22 +250,28 @@ func runC08Lock(c *Ctx, r *Rng) {
 			if t.Done {
 				continue
 			}
-			if ci, ok := closers[t]; ok && (t.At == "close.post-done" || t.At == "blocked") && blocked[fmt.Sprintf("C%d", ci)] {
+			if ci, ok := closers[t]; ok && (t.At == "close.post-done" || t.At == "close.wait-for-winner" || t.At == "blocked") && blocked[fmt.Sprintf("C%d", ci)] {
 				others = true
-				if t.At == "close.post-done" && !probed[t] && r.Chance(20) {
-					// probe: the model says this Close call must wait for the loop goroutine; resume it with a short
-					// watchdog and expect it to block in wg.Wait() (it then stays there, running, until the loop exits)
+				if (t.At == "close.post-done" || t.At == "close.wait-for-winner") && !probed[t] && r.Chance(20) {
+					// probe: the model says this Close call must wait (for the loop goroutine in wg.Wait(), or -- a call that
+					// lost the CAS -- for the winning call in <-closeDone); resume it with a short watchdog and expect it to
+					// block (it then stays there, running, until what it waits for has happened)
 					probed[t] = true
+					probedAt[t] = t.At
+					at := t.At
 					s.Timeout = 25 * time.Millisecond
 					to, _ := s.Step(t)
 					s.Timeout = 3 * time.Second
 					tmu.Lock()
-					trace = append(trace, fmt.Sprintf("[probe %s close.post-done->%s]", t.Name, to))
+					trace = append(trace, fmt.Sprintf("[probe %s %s->%s]", t.Name, at, to))
 					tmu.Unlock()
-					c.Cov.Hit("probe.blocked-closer")
+					c.Cov.Hit("probe.blocked-closer@" + at)
 					if to != "blocked" {
-						c.Cov.Fail(Failure{Kind: "differ", Clause: "close-ran-where-the-model-blocks", Signature: "c08-lockstep", Line: strings.Join(trace, " | "),
-							Reply: "a Close call went past wg.Wait() to " + to + " although the report-loop goroutine has not exited"})
+						why := "a Close call went past wg.Wait() to " + to + " although the report-loop goroutine has not exited"
+						if at == "close.wait-for-winner" {
+							why = "a Close call that lost the CAS went on to " + to + " although the winning call has not returned"
+						}
+						c.Cov.Fail(Failure{Kind: "differ", Clause: "close-ran-where-the-model-blocks", Signature: "c08-lockstep", Line: strings.Join(trace, " | "), Reply: why})
 						failed = true
 					}
 				}
@@ -315,7 +325,7 @@ func runC08Lock(c *Ctx, r *Rng) {
 					// a probed Close call is sitting in wg.Wait() and continues by itself now: wait until it has
 					// reached its next schedule point before anything else runs
 					for ct, ci := range closers {
-						if ct.At == "blocked" && !ct.Done {
+						if ct.At == "blocked" && !ct.Done && probedAt[ct] == "close.post-done" {
 							to2, _ := s.Step(ct)
 							tmu.Lock()
 							trace = append(trace, fmt.Sprintf("[%s wg.Wait->%s]", ct.Name, to2))
@@ -342,6 +352,23 @@ func runC08Lock(c *Ctx, r *Rng) {
 		}
 		if ci, ok := closers[t]; ok {
 			closerMoved(t, ci, from, to)
+			if to == "done" && from != "start" && from != "close.wait-for-winner" {
+				// the winning call has returned: a probed losing call sitting in <-closeDone continues by itself now
+				for ct, cj := range closers {
+					if ct.At == "blocked" && !ct.Done && probedAt[ct] == "close.wait-for-winner" {
+						to2, _ := s.Step(ct)
+						tmu.Lock()
+						trace = append(trace, fmt.Sprintf("[%s <-closeDone->%s]", ct.Name, to2))
+						tmu.Unlock()
+						if to2 != "done" {
+							c.Cov.Fail(Failure{Kind: "crash", Clause: to2 + "-where-the-model-says-enabled", Signature: "c08-lockstep", Line: strings.Join(trace, " | "), Reply: fmt.Sprint(ct.Pan)})
+							failed = true
+							break
+						}
+						closerMoved(ct, cj, "close.wait-for-winner", to2)
+					}
+				}
+			}
 		}
 		// application threads send their own events from inside the step
 	}
